@@ -5,6 +5,7 @@ cd /repo && git diff --quiet || { echo "repo dirty"; exit 3; }
 python3 -c "$edit" || { echo "edit failed"; git -C /repo checkout -- .; exit 3; }
 git -C /repo diff --stat | tail -1
 (cd /repo && GOFLAGS=-mod=mod GOPROXY=off go build ./... ) || { echo "does not compile"; git -C /repo checkout -- .; exit 3; }
+EVS=$(mktemp -d /root/evsave.XXXX); cp -r /verif/evidence/. $EVS/
 for c in "$@"; do
   out=$(cd /verif && timeout 900 ./run.sh $c quick 2>&1)
   rc=$?
@@ -13,3 +14,4 @@ for c in "$@"; do
   echo "$out" | grep -m2 "violation:" | cut -c1-300
 done
 git -C /repo checkout -- .
+cp -r $EVS/. /verif/evidence/; rm -rf $EVS
